@@ -446,6 +446,7 @@ func runC03(c C03Case) []vstat.Failure {
 	fails := runC03once(c)
 	for _, f := range fails {
 		if strings.HasSuffix(f.Key, ":timeout") {
+			dumpGoroutines("c03-timeout")
 			st.Inconclusive()
 			return runC03once(c)
 		}
